@@ -3,7 +3,9 @@ CONSTANTS
   Types = {"application/json", "text/plain", "application/xml", "application/octet-stream"}
   NCallers = 6
   RecyclesWrappers = FALSE
+  SharedDefaults = FALSE
+  MaxOps = 4
   OnceIsNilCheck = FALSE
-INVARIANTS InvCtx InvWire InvRetained InvPick InvOwn InvOneClient
+INVARIANTS InvIsolated InvBody InvCtx InvWire InvRetained InvPick InvOwn InvOneClient
 PROPERTIES AllDone
 CHECK_DEADLOCK FALSE
